@@ -14,7 +14,7 @@ import sys
 import zlib
 from typing import Any, Callable, Iterable
 
-REPO = "/repo"
+REPO = os.environ.get("VERIF_REPO", "/repo")
 FIXTURES = os.path.join(REPO, "test-data", "unit", "fixtures")
 LIB_STUB = os.path.join(REPO, "test-data", "unit", "lib-stub")
 
